@@ -9,7 +9,7 @@ import z3
 from . import sreal as S
 
 
-def lift_matrix(data, names, constant_rows=(), prefix="", where=None, values=None):
+def lift_matrix(data, names, constant_rows=(), prefix="", where=None, values=None, col_label=str):
     """
     data: 2-D float array (rows = names, columns = periods).  Every non-NaN cell becomes a fresh symbol
     f'{prefix}{name}__{col}' (or f'{prefix}{name}' shared by the whole row for `constant_rows`).
@@ -29,7 +29,7 @@ def lift_matrix(data, names, constant_rows=(), prefix="", where=None, values=Non
             if math.isnan(x) or (where is not None and not where(nm, j)):
                 obj[i, j] = x
                 continue
-            sname = f"{prefix}{nm}" if nm in constant_rows else f"{prefix}{nm}__{j}"
+            sname = f"{prefix}{nm}" if nm in constant_rows else f"{prefix}{nm}__{col_label(j)}"
             if sname not in syms:
                 sv = x if values is None else values.get(sname, x)
                 syms[sname] = S.sym(sname, sv)
